@@ -26,7 +26,8 @@ def build(tier, rnd):
     ports = [None, 1, 22, 2222, 65535, 0, 65536, 70000]
     popts = [(0, None), (1, '1'), (22, '22'), (2222, '2222'), (65535, '65535'), (-5, '0'), (65536, '65536')]
     fams = ['', '4', '6', '46', '64']
-    answers = {'v4only': [(4, V4)], 'v6only': [(6, V6)], 'v4first': [(4, V4), (6, V6)], 'v6first': [(6, V6), (4, V4)], 'none': []}
+    answers = {'v4only': [(4, V4)], 'v6only': [(6, V6)], 'v4first': [(4, V4), (6, V6)], 'v6first': [(6, V6), (4, V4)], 'none': [],
+               'interleaved646': [(6, V6), (4, V4), (6, '2001:db8::11')], 'interleaved464': [(4, V4), (6, V6), (4, '192.0.2.11')]}
     cases = []
     for host, kind in hosts:
         spellings = [(host, None)]
@@ -50,7 +51,7 @@ def build(tier, rnd):
                         if kind == 'name':
                             ans_names = list(answers)
                             if tier == 'quick':
-                                ans_names = ['v4first', 'v6first'] if fam in ('46', '64', '') else ['v4first', 'none']
+                                ans_names = ['v4first', 'v6first', 'interleaved646', 'interleaved464'] if fam in ('46', '64', '') else ['v4first', 'none']
                         else:
                             ans_names = ['self']
                         for an in ans_names:
@@ -138,6 +139,15 @@ def run(tier):
                   'resolves': [(x['host'], x['port'], x['family']) for x in res_ev], 'connects': [(x['host'], x['port'], x['family'], x['ok']) for x in con_ev],
                   'stdout': r['stdout'][-1500:]}
         form = _form(c)
+        if c['source'] == 'file':
+            ap = c['popt'] if 1 <= c['popt'] <= 65535 else 22
+            anchor_con = [x for x in r['events'] if x.get('ev') == 'connect' and x.get('host') == anchor]
+            anchor_res = [x for x in r['events'] if x.get('ev') == 'resolve' and x.get('host') == 'anchor.example' and x.get('port') != 0]
+            if not (e['rejected'] or (c['popt'] != 0 and not 1 <= c['popt'] <= 65535)):
+                if any(x['port'] != ap for x in anchor_con + anchor_res) or not anchor_res:
+                    ck.violation('neighbouring-line-changes-port', 'the next line of the targets file (no port given) is dialled on port %r; the default port is %d'
+                                 % (sorted({x['port'] for x in anchor_con + anchor_res}), ap), replay)
+                    continue
         if e['skipped']:
             if res_ev or con_ev:
                 ck.violation('blank-line-becomes-target', 'a targets-file line holding only %r is treated as a target (resolves %r)' % (c['spelling'], replay['resolves']), replay)
